@@ -99,6 +99,11 @@ func (c *Ctx) gatedShapeRules(prefix string) {
 			nNB++
 			got := map[string]bool{}
 			for _, st := range pa.Steps {
+				if call, ok := st.In.(*ssa.Call); ok {
+					if nm, ok := gatedResetInPlace(call, pa.TermsAt(st)); ok {
+						got[nm] = true
+					}
+				}
 				if sto, ok := st.In.(*ssa.Store); ok && (isNilConst(sto.Val) || isEmptyContainer(sto.Val)) {
 					t := pa.TermsAt(st).Of(sto.Addr)
 					for _, nm := range []string{"gated", "orderedGated"} {
@@ -345,7 +350,7 @@ func (c *Ctx) gatedContainerRules(prefix string) {
 
 func runC11(c *Ctx) {
 	p, r := c.P, c.R
-	r.Explanation = "Decides the structural clauses of C11 on gated.Filter: all gate state (gated, orderedGated, composeFrom, Expiration, the groups' event slices) is accessed under Filter.l held for writing (pairwise lock-set discipline, including the unexported helpers' entry lock sets); insertions into the id map are paired with PushBack and removals from the map with list.Remove, both deferred before composition so they run on error too; in Process the incoming event is appended to its id's group before the flush test, composition receives exactly that group's slice, non-flush returns (nil,nil) and flush returns a fresh event built from composition's results; openGate sends only a payload proven not Gateable, with composition's type and payload unchanged; non-Gateable events are returned untouched before any lock, empty ids rejected; list iteration is safe (shared with C17). Exactly-once over long histories as such is not decided. C11.reset / C11.discard / C11.insert / C11.listops: whole-container resets only without a Broker; unsent removal only for composition failure, Gateable composite or no Broker; a group is opened only when the id has none; nothing reorders the list. C11.expiry: the expiry scan visits every withheld group and opens exactly the expired ones."
+	r.Explanation = "Decides the structural clauses of C11 on gated.Filter: all gate state (gated, orderedGated, composeFrom, Expiration, the groups' event slices) is accessed under Filter.l held for writing (pairwise lock-set discipline, including the unexported helpers' entry lock sets); insertions into the id map are paired with PushBack and removals from the map with list.Remove, both deferred before composition so they run on error too; in Process the incoming event is appended to its id's group before the flush test, composition receives exactly that group's slice, non-flush returns (nil,nil) and flush returns a fresh event built from composition's results; openGate sends only a payload proven not Gateable, with composition's type and payload unchanged; non-Gateable events are returned untouched before any lock, empty ids rejected; list iteration is safe (shared with C17). Exactly-once over long histories as such is not decided. C11.reset / C11.discard / C11.insert / C11.listops: whole-container resets only without a Broker; unsent removal only for composition failure, Gateable composite or no Broker; a group is opened only when the id has none; nothing reorders the list. C11.expiry: the expiry scan visits every withheld group and opens exactly the expired ones. C11.expiry no-shortcut: the scan is skipped with success only when there is no list or nothing is gated."
 	r.NotDecided = []string{"exactly-once delivery over arbitrary long histories (the rules are its per-step obligations)", "behaviour of user ComposeFrom implementations"}
 	c.lockControls()
 	c.errControls()
@@ -442,8 +447,30 @@ func (c *Ctx) ruleGatedOrder() {
 		tgt := stb.Of(appendStore.Addr)
 		val := stb.Of(appendStore.Val)
 		grp := "Lookup(Field[gated](Param(0:w)),Call[invoke gated.Gateable.GetID](Extract[0](Assert[gated.Gateable](Field[Payload](Param(2:e))))))"
-		okApp := tgt.Op == "FieldAddr" && tgt.Name == "events" && tgt.Args[0].String() == grp &&
-			val.Op == "Call" && val.Name == "builtin append" && val.Args[0].String() == "Field[events]("+grp+")" &&
+		// the group of the incoming event's id: gated[id] looked up (plain or comma-ok), or the group this very
+		// path created and stored under that id
+		idT := "Call[invoke gated.Gateable.GetID](Extract[0](Assert[gated.Gateable](Field[Payload](Param(2:e)))))"
+		isGroup := func(t *Term, upto int) bool {
+			if t.String() == grp || t.String() == "Extract[0]("+grp+")" {
+				return true
+			}
+			if t.V == nil {
+				return false
+			}
+			for _, s := range pa.Steps[:upto] {
+				mu, ok := s.In.(*ssa.MapUpdate)
+				if !ok {
+					continue
+				}
+				mtb := pa.TermsAt(s)
+				if mtb.Of(mu.Map).String() == "Field[gated](Param(0:w))" && mtb.Of(mu.Key).String() == idT && mtb.Of(mu.Value).V == t.V {
+					return true
+				}
+			}
+			return false
+		}
+		okApp := tgt.Op == "FieldAddr" && tgt.Name == "events" && isGroup(tgt.Args[0], appendIdx) &&
+			val.Op == "Call" && val.Name == "builtin append" && val.Args[0].Is("Field", "events") && isGroup(val.Args[0].Args[0], appendIdx) &&
 			val.Args[1].Op == "Varargs" && len(val.Args[1].Args) == 1 && val.Args[1].Args[0].IsParam("2:e")
 		if !okApp {
 			r.Bad(rule, "Process:append", p.InstrPos(appendStore), "the group update is "+tgt.String()+" = "+val.String()+"; expected gated[id].events = append(gated[id].events, e)")
@@ -469,7 +496,8 @@ func (c *Ctx) ruleGatedOrder() {
 			continue
 		}
 		ltb := pa.TermsAt(pa.LastStep())
-		okComp := ltb.Of(comp.Call.Value).Is("Field", "composeFrom") && ltb.Of(comp.Call.Args[0]).String() == "Field[events]("+grp+")"
+		compArg := ltb.Of(comp.Call.Args[0])
+		okComp := ltb.Of(comp.Call.Value).Is("Field", "composeFrom") && compArg.Is("Field", "events") && isGroup(compArg.Args[0], len(pa.Steps))
 		if !okComp {
 			r.Bad(rule, "Process:flush-compose", p.InstrPos(comp), "composition is "+ltb.Of(comp).String()+"; expected composeFrom(gated[id].events)")
 			continue
@@ -540,5 +568,49 @@ func (c *Ctx) ruleExpiryScanAs(rule string) {
 		r.Check(okGe && okCond, rule, "processExpiredEvents:expired-branch", p.InstrPos(oc), "openGate(ctx, element value) exactly when w.Now().After(ge.exp)", "the gate is not opened exactly for elements with w.Now().After(ge.exp): gate="+ge.String())
 		// every return inside the loop region is an error return
 		c.errorFlowRule(rule, scan, nil, false)
+		// ... and nothing returns success BEFORE the scan except "there is no list": a shortcut that looks at the
+		// oldest group only ("nothing has expired unless the oldest has") skips expired groups behind an unexpired
+		// one — the list is in arrival order, not in expiry order
+		if h := innermostHeader(oc.Block()); h != nil {
+			after := reachableFrom(h)
+			for _, ret := range Returns(scan) {
+				rv := RetVals(ret)
+				if len(rv) != 1 || !isNilConst(rv[0]) || after[ret.Block()] {
+					continue
+				}
+				okEarly := false
+				for d := ret.Block(); d != nil; d = d.Idom() {
+					cond, ts, fs := condOf(d)
+					bo, isB := cond.(*ssa.BinOp)
+					if !isB {
+						continue
+					}
+					// len(w.gated) == 0: nothing is gated
+					if k, isC := constInt(bo.Y); isC && k == 0 && bo.Op == token.EQL && len(d.Succs) == 2 {
+						if lt := tb.Of(bo.X); lt.Op == "Call" && lt.Name == "builtin len" && len(lt.Args) == 1 && lt.Args[0].Is("Field", "gated") && edgeDominates(d, ts, ret.Block()) {
+							okEarly = true
+						}
+					}
+					if !(isNilConst(bo.X) || isNilConst(bo.Y)) {
+						continue
+					}
+					v := bo.X
+					if isNilConst(v) {
+						v = bo.Y
+					}
+					vt := tb.Of(v)
+					isList := vt.Is("Field", "orderedGated") || (vt.Op == "Call" && vt.Name == "(*container/list.List).Front")
+					edge := ts
+					if bo.Op == token.NEQ {
+						edge = fs
+					}
+					if isList && (bo.Op == token.EQL || bo.Op == token.NEQ) && len(d.Succs) == 2 && edgeDominates(d, edge, ret.Block()) {
+						okEarly = true
+					}
+				}
+				r.Check(okEarly, rule, "processExpiredEvents:no-shortcut", p.InstrPos(ret), "the scan is skipped with success only when there is no list or nothing is gated",
+					"the expiry scan can be skipped with success on a condition other than `no list / nothing gated` (a look at the oldest group only, say): expired groups behind an unexpired one stay gated")
+			}
+		}
 	}
 }
